@@ -53,9 +53,13 @@ MENU = [
     ('pairs', 'start: pair ("," pair)*\npair: X ":" val\n?val: X | "[" val ("," val)* "]" | "[" "]" -> empty\nX: "x"\n%ignore " "\n', 'x:,[]', 7),
     ('sigil', 'start: (REF NAME ";" | NAME REF ";")+\nREF: /\\$[a-c]+/\nNAME: /[a-c]+/\n%ignore " "\n', 'SIGIL', 0),
     ('term-subs', 'start: item (_SEP item)* _END?\nitem: X | "(" start ")"\nX: "x"\n_SEP: /[,;]/\n_END: /[.!]/\n%ignore " "\n', 'x,;.()', 6),
+    ('words-numbers', 'start: stmt+\nstmt: "move" NAME NUMBER ";" | "goto" NUMBER NUMBER ";" | "wait" NUMBER NAME? ";"\nNAME: /[a-c]+/\nNUMBER: /[0-9]+/\n%ignore " "\n', 'WORDS', 0),
+    ('long-list', 'start: item*\nitem: X | "(" X ")"\nX: "x"\n%ignore " "\n', 'LONG', 0),
     ('kw', 'start: stmt+\nstmt: "if" NAME "then" stmt -> cond | NAME "=" NAME ";" -> assign\nNAME: /[a-c]/\n%ignore " "\n', None, 0),
 ]
 SIGIL_INPUTS = ['$a b;', 'a $b;', '$ab c;$c a;', 'ab $c; $a bc;']
+WORDS_INPUTS = ['move a 1;', 'goto 3 4;', 'wait 10 ab; move ab 10; goto 1 22;', 'wait 7;']
+LONG_INPUTS = ['x ' * 40, '(x) x ' * 750, 'x ' * 2500]
 KW_INPUTS = ['a=b;', 'if a then b=c;', 'a=b; if c then if a then b=b; c=a;', 'if a then if b then a=c;']
 
 
@@ -158,7 +162,7 @@ def work(item):
         return _run.work(item[1:])
     res = new_res()
     name, gtext, alpha, L = MENU[item[1]]
-    inputs = KW_INPUTS if alpha is None else SIGIL_INPUTS if alpha == 'SIGIL' else list(util.strings(alpha, L + (1 if item[2] == 'thorough' else 0)))
+    inputs = KW_INPUTS if alpha is None else SIGIL_INPUTS if alpha == 'SIGIL' else WORDS_INPUTS if alpha == 'WORDS' else LONG_INPUTS if alpha == 'LONG' else list(util.strings(alpha, L + (1 if item[2] == 'thorough' else 0)))
     for parser in ('lalr', 'earley'):
         check_parser(gtext, parser, inputs, res, {'menu': name, 'grammar': gtext, 'tier': item[2]})
     res['counters'] = dict(res['counters'])
